@@ -241,18 +241,21 @@ theorem flat_lt {mul d u i : Nat} (hu : u < mul) (hi : i < d) : u * d + i < mul 
     _ ≤ mul * d := Nat.mul_le_mul_right d hu
 
 /-- the `[b,s,u,i]` view of block `blk` of `torch.cat(fields)` is the field of that block -/
-theorem field_assemble (o : Opts K) (g : Block → T4 K) {blk : Block} (hb : blk ∈ blocks o)
-    (b s : Nat) {u i : Nat} (hu : u < blk.mul) (hi : i < blk.d) :
-    field (assemble (blocks o) g) blk b s u i = g blk b s u i := by
-  have hl := layout_ix o.affine o.includeBias o.irreps 0 0 0 0 0 0
+theorem field_assembleB {bs : List Block} (hl : Layout (fun b => b.mul * b.d) (·.ix) 0 bs) (g : Block → T4 K)
+    {blk : Block} (hb : blk ∈ bs) (b s : Nat) {u i : Nat} (hu : u < blk.mul) (hi : i < blk.d) :
+    field (assemble bs g) blk b s u i = g blk b s u i := by
   have hlt := flat_lt hu hi
   have := cat_at' (f := fun blk j => g blk b s (j / blk.d) (j % blk.d)) hl hb hlt
   simp only [field, assemble, Nat.add_assoc]
-  rw [show blocks o = blocksFrom o.affine o.includeBias o.irreps 0 0 0 0 0 0 from rfl] at *
   rw [this]
   have hd : 0 < blk.d := by omega
   rw [Nat.add_comm (u * blk.d) i, Nat.add_mul_div_right _ _ hd, Nat.add_mul_mod_self_right,
     Nat.div_eq_of_lt hi, Nat.mod_eq_of_lt hi, Nat.zero_add]
+
+theorem field_assemble (o : Opts K) (g : Block → T4 K) {blk : Block} (hb : blk ∈ blocks o)
+    (b s : Nat) {u i : Nat} (hu : u < blk.mul) (hi : i < blk.d) :
+    field (assemble (blocks o) g) blk b s u i = g blk b s u i :=
+  field_assembleB (layout_ix o.affine o.includeBias o.irreps 0 0 0 0 0 0) g hb b s hu hi
 
 /-- two assembled tensors are equal as soon as the block fields agree on the valid indices -/
 theorem assemble_congr (bs : List Block) {g g' : Block → T4 K}
@@ -269,12 +272,11 @@ theorem assemble_congr (bs : List Block) {g g' : Block → T4 K}
   refine h blk hb b s _ _ ?_ (Nat.mod_lt _ hd)
   exact (Nat.div_lt_iff_lt_mul hd).2 hj
 
-omit [Scalar K] in
 /-- every feature position `j < irreps.dim` is component `i` of copy `u` of exactly one block -/
-theorem cover_ix (o : Opts K) {j : Nat} (hj : j < o.irreps.dim) :
-    ∃ blk ∈ blocks o, ∃ u i, u < blk.mul ∧ i < blk.d ∧ j = blk.ix + u * blk.d + i := by
-  have hl := layout_ix o.affine o.includeBias o.irreps 0 0 0 0 0 0
-  have ht := total_ix o.affine o.includeBias o.irreps 0 0 0 0 0 0
+theorem cover_ixB (a ib : Bool) (irreps : Irreps) {j : Nat} (hj : j < irreps.dim) :
+    ∃ blk ∈ blocksFrom a ib irreps 0 0 0 0 0 0, ∃ u i, u < blk.mul ∧ i < blk.d ∧ j = blk.ix + u * blk.d + i := by
+  have hl := layout_ix a ib irreps 0 0 0 0 0 0
+  have ht := total_ix a ib irreps 0 0 0 0 0 0
   obtain ⟨blk, hb, h1, h2⟩ := hl.cover (j := j) (Nat.zero_le _) (by rw [ht]; omega)
   have hd : 0 < blk.d := (scalar_d _ _ _ _ _ _ _ _ _ blk hb).1
   refine ⟨blk, hb, (j - blk.ix) / blk.d, (j - blk.ix) % blk.d, ?_, Nat.mod_lt _ hd, ?_⟩
@@ -284,5 +286,10 @@ theorem cover_ix (o : Opts K) {j : Nat} (hj : j < o.irreps.dim) :
     have := Nat.div_add_mod (j - blk.ix) blk.d
     rw [Nat.mul_comm] at this
     omega
+
+omit [Scalar K] in
+theorem cover_ix (o : Opts K) {j : Nat} (hj : j < o.irreps.dim) :
+    ∃ blk ∈ blocks o, ∃ u i, u < blk.mul ∧ i < blk.d ∧ j = blk.ix + u * blk.d + i :=
+  cover_ixB o.affine o.includeBias o.irreps hj
 
 end E3nnVerif.BN
